@@ -94,7 +94,7 @@ def main():
     props = [p for p in a.property.split(',') if p]
     jobs = []
     for kind in ('mutants', 'variants'):
-        if a.kind not in (kind, 'both'):
+        if a.kind not in (kind, 'both', 'all'):
             continue
         for d in sorted(glob.glob(os.path.join(VERIF, kind, '*'))):
             prop = os.path.basename(d)
@@ -104,6 +104,14 @@ def main():
                 if a.name and a.name not in os.path.basename(patch):
                     continue
                 jobs.append((kind, prop, patch))
+    if a.kind in ('seeded', 'all'):
+        for d in sorted(glob.glob(os.path.join(VERIF, 'seeded', '*'))):
+            prop = os.path.basename(d)
+            if props and prop not in props:
+                continue
+            patch = os.path.join(d, 'patch.diff')
+            if os.path.exists(patch):
+                jobs.append(('mutants', prop, patch))
     results = []
     with concurrent.futures.ThreadPoolExecutor(max_workers=a.j) as ex:
         futs = [ex.submit(run_one, k, p, f, a.keep) for (k, p, f) in jobs]
